@@ -53,14 +53,20 @@ def random_instance(rng, cls, small=False):
         oo = dict(oo or {}); oo["optimize_with_greedy"] = False
     if oo is not None:
         kw["optimization_options"] = dict(oo)
-    drop = []; garbage = {}
+    drop = []; garbage = {}; lens = None
     ckey = "subset_constraints" if cyc else "subpath_constraints"
     if rng.random() < 0.3 and base["planted"]:
         cons = I.constraints_from_planted(rng, base)
         if cons:
             kw[ckey] = gen.jl(cons)
-            if rng.random() < 0.3:
+            r_ = rng.random()
+            if r_ < 0.3:
                 kw[ckey + "_coverage"] = rng.choice([0.5, 0.75])
+            elif r_ < 0.5 and not cyc and base["mode"] == "edge":
+                # coverage measured in edge lengths (missing lengths count 1, lengths need not be integers)
+                kw["subpath_constraints_coverage_length"] = rng.choice([0.4, 0.6, 1.0]); kw["length_attr"] = "len"
+                lv = rng.choice([[1, 2, 5], [0.5, 1.5, 2.25]])
+                lens = {e: {"len": rng.choice(lv)} for e in base["edges"] if rng.random() < 0.75}
     elems = base["edges"] if base["mode"] == "edge" else base["nodes"]
     if rng.random() < 0.3 and len(elems) >= 2 and cls != "kMinPathErrorCycles__":
         ign = I.pick_ignore(rng, base, 0.25)
@@ -103,7 +109,7 @@ def random_instance(rng, cls, small=False):
     if cls == "kMinPathError" and wt == "int" and rng.random() < 0.15:
         kw["path_length_ranges"] = [[0, 3], [4, 50]]; kw["path_length_factors"] = [1.0, 0.5]
     if cover:
-        spec = gen.spec(base["nodes"], base["edges"])
+        spec = gen.spec(base["nodes"], base["edges"], eattr=lens)
     else:
-        spec = I.spec_of(base, drop_attr=drop, garbage=garbage)
+        spec = I.spec_of(base, drop_attr=drop, garbage=garbage, extra_eattr=lens)
     return {"cls": cls, "spec": spec, "kw": kw}, meta
